@@ -148,7 +148,9 @@ func multisigMonitor(wallets []*msWallet) chainsim.Monitor {
 		byOwner[mw.Owner.ID] = mw
 	}
 	hist := map[*chainsim.SNode]msHist{}
+	pg := &purger{}
 	return func(s *chainsim.Step, v func(key, what string)) {
+		purgeOld(pg, hist, s.Pre)
 		h := hist[s.Pre]
 		if h == nil {
 			h = msHist{}
@@ -349,7 +351,7 @@ func multisigScenario(run *ev.Run) (*scenario, []*msWallet) {
 		}
 		sc.acts = keep
 	}
-	sc.dq, sc.dt = 4, 5
+	sc.dq, sc.dt = 4, 4
 	sc.rule = "BFS from three registered wallets (2-of-3 and 3-of-3 with signer keys that are Shamir shares of the wallet key; 2-of-2 with unrelated signer keys) over votes {valid by each signer, repeated, incompatible amount / recipient, by a non-signer, by the wallet owner, by a signer of another wallet, carrying another signer's signature, garbage signature, above the wallet balance, one second before and exactly at expiry (7 days)} and re-registration; reference model of distinct valid compatible unexpired votes kept along the path (the monitor verifies every vote signature itself); oracle per transition: a signed transfer is queued iff this is the t-th distinct valid vote of an unexecuted unexpired proposal, exactly one, equal to the proposal, debiting the wallet by exactly the amount, and its signature verifies under the wallet's public key"
 	return sc, wallets
 }
